@@ -22,6 +22,7 @@ ASSUMPTIONS = [
     "asyncio.Server.wait_closed has 3.12.1 semantics (waits for accepted connections)",
 ]
 REQUIRED_MONITORS = ["ledger_at_quiescence", "task_audit", "server_close_returns"]
+ANCHOR_FUNCTIONS = ['server.py:Server.dispatcher', 'server.py:Server.close', 'common.py:ThrottleStreamIO.__aexit__']
 EXHAUSTIVE = {"quick": True, "thorough": True}
 WALL_BUDGET = {"quick": 900, "thorough": 7200}
 
